@@ -204,3 +204,28 @@ Fixpoint has_reversed_range (t : tok) : bool :=
   | TCat _ ts => existsb has_reversed_range ts
   | TRep _ b _ _ => has_reversed_range b
   end.
+
+(* some expansion of the tree ends with a separator: such patterns match the empty path or `/`
+   through their last separator, but not what lies beneath (the known class trailing_boundary) *)
+Fixpoint may_end_sep (t : tok) : bool :=
+  match t with
+  | TLeaf _ LSep => true
+  | TLeaf _ _ => false
+  | TAlt _ bs => existsb may_end_sep bs
+  | TCat _ ts =>
+      (fix go (ts : list tok) : bool :=
+         match ts with
+         | [] => false
+         | t0 :: r => if forallb fnull r then may_end_sep t0 || go r else go r
+         end) ts
+  | TRep _ b _ _ => may_end_sep b
+  end.
+
+(* some repetition may be written out zero times *)
+Fixpoint has_optional_rep (t : tok) : bool :=
+  match t with
+  | TLeaf _ _ => false
+  | TAlt _ bs => existsb has_optional_rep bs
+  | TCat _ ts => existsb has_optional_rep ts
+  | TRep _ b lo hi => (lo =? 0) || (match hi with Some h => h =? 0 | None => false end) || has_optional_rep b
+  end.
